@@ -382,3 +382,9 @@ def run(ctx):
             ctx.check(p7, hit is None, key(f, "free:%s" % x), f.where(c), "`%s` is released here but is also a path's parent (%s): a hypothesis completed later is back-traced through recycled memory" % (x, hit))
     if nfree < 3:
         raise AnalysisIncomplete("releases of partial paths not found (%d)" % nfree)
+
+    # alpha, beta and the normaliser are sums in the log domain: a table entry read through a signed or narrower
+    # element type makes a sum smaller than its larger operand and posteriors exceed one (seed C12-11)
+    from . import c19
+    from ..report import Only
+    c19.run(Only(ctx, ("TABLE.width", "GUARD.table-read")))
